@@ -240,6 +240,14 @@ func runC12(c *Ctx) {
 	add("merge-not-a-list", "eval", "numbers(100).merge(3, (p, q) -> p < q).size()", er*5)
 	add("merge-less-fails", "eval", "numbers(100000).merge(numbers(100000), (p, q) -> throw(\"x\")).size()", er*5)
 	add("merge-less-panics", "eval", "numbers(100000).merge(numbers(100000), (p, q) -> boom(p)).size()", er*5)
+	// sources far too long to run dry within the grace period: a producer that is not told to stop is still at work then
+	add("merge-endless-less-panics", "eval", "numbers(100000000000).merge(numbers(100000000000), (p, q) -> boom(p)).size()", 3)
+	add("merge-endless-less-stack-guard", "eval", "func deep(n) 1 + deep(n + 1); numbers(100000000000).merge(numbers(100000000000), (p, q) -> deep(p) < q).first()", 3)
+	add("merge-endless-consumer-panics", "eval", "numbers(100000000000).merge(numbers(100000000000), (p, q) -> p < q).reduce((p, q) -> if q > 20 then boom(q) else p + q)", 3)
+	add("merge-endless-consumer-stack-guard", "eval", "func deep(n) 1 + deep(n + 1); try numbers(100000000000).merge(numbers(100000000000), (p, q) -> p < q).reduce((p, q) -> if q > 20 then deep(q) else p + q) catch 0", 3)
+	add("merge-endless-less-fails", "eval", "numbers(100000000000).merge(numbers(100000000000), (p, q) -> throw(\"x\")).size()", 3)
+	add("merge-endless-early-stop", "eval", "numbers(100000000000).merge(numbers(100000000000), (p, q) -> p < q).top(5).size()", 3)
+	add("merge-endless-operand-error", "eval", "numbers(100000000000).map(e -> if e = 5 then throw(\"x\") else e).merge(numbers(100000000000), (p, q) -> p < q).size()", 3)
 	add("merge-of-parallel-operands-early-stop", "eval", par+".merge("+par+", (p, q) -> p < q).top(20).size()", er)
 	add("cross-inner-parallel-early-stop", "eval", "[1, 2, 3].cross("+par+".top(30), (p, q) -> p + q).size()", er)
 	add("parallel-error-in-worker", "eval", "numbers(100000).map(e -> if e = 40 then throw(\"x\") else slow(e)).sum()", er)
